@@ -22,6 +22,7 @@ CONSTANTS
   Senders = {}
   Recipients = {}
   MaxSteps = 0
+  DonateAlso = {}
   WithUni = TRUE
 INVARIANTS
   Monitor
